@@ -59,6 +59,18 @@ def cmp_stats(exp, got, types, where):
                     bad.append(("%s[%s][%s]@%s" % (k, ty, st, where), e[k], g[k]))
             if not _close(e["total"] / e["count"], g.get("mean")):
                 bad.append(("mean[%s][%s]@%s" % (ty, st, where), e["total"] / e["count"], g.get("mean")))
+            ew, gw = e.get("w"), g.get("w")
+            if ew and ew["count"] > 0:                       # the second property, over the agents that have it
+                if gw is None:
+                    bad.append(("property w[%s][%s]@%s is not aggregated" % (ty, st, where), ew, None))
+                    continue
+                for k in ("total", "min", "max"):
+                    if not _close(float(ew[k]), gw[k]):
+                        bad.append(("w %s[%s][%s]@%s" % (k, ty, st, where), ew[k], gw[k]))
+                if ew["count"] == e["count"] and not _close(ew["total"] / ew["count"], gw.get("mean")):     # mean only when every agent of the cell has w
+                    bad.append(("w mean[%s][%s]@%s" % (ty, st, where), ew["total"] / ew["count"], gw.get("mean")))
+            elif ew is not None and gw is not None:
+                bad.append(("property w[%s][%s]@%s aggregated although no agent has it" % (ty, st, where), None, gw))
     return bad
 
 
@@ -102,7 +114,7 @@ class Replayer:
         m, op = self.m, h["op"]
         try:
             if op == "Create":
-                m.create_agent(h["ty"], A.prop_v(h["v"]))
+                m.create_agent(h["ty"], A.prop_v(h["v"], h.get("w")))
             elif op == "Delete":
                 ids = list(h["ids"])
                 # "delete all agents of a type" is written the way users write it: with the list agent_ids() returned
@@ -115,7 +127,7 @@ class Replayer:
                     m.delete_agents(ids)
                 self.alias_delete = not self.alias_delete
             elif op == "Configure":
-                m.configure_agents([{"name": c[0], "count": c[1], "properties": A.prop_v(c[2])} for c in h["cfg"]])
+                m.configure_agents([{"name": c[0], "count": c[1], "properties": A.prop_v(c[2], c[3] if len(c) > 3 else None)} for c in h["cfg"]])
             elif op == "Reset":
                 m.reset()
             elif op == "SetState":
